@@ -169,21 +169,29 @@ class LeanDriver:
 
             def _w() -> None:
                 assert self.p.stdin is not None
-                self.p.stdin.write(data)
-                self.p.stdin.flush()
+                try:
+                    self.p.stdin.write(data)
+                    self.p.stdin.flush()
+                except (BrokenPipeError, OSError, ValueError):
+                    pass  # the reader below reports the dead driver
 
-            th = threading.Thread(target=_w)
+            th = threading.Thread(target=_w, daemon=True)
             th.start()
             assert self.p.stdout is not None
             f = self.p.stdout
-            for (m, a) in chunk:
-                line = _readline(f)
-                if not line:
-                    raise DriverError(f"driver died on {m}")
-                r = json.loads(line)
-                if "e" in r:
-                    raise DriverError(f"{m}: {r['e']} (args {json.dumps(a)[:300]})")
-                out.append(r["r"])
+            try:
+                for (m, a) in chunk:
+                    line = _readline(f)
+                    if not line:
+                        raise DriverError(f"driver died on {m}")
+                    r = json.loads(line)
+                    if "e" in r:
+                        raise DriverError(f"{m}: {r['e']} (args {json.dumps(a)[:300]})")
+                    out.append(r["r"])
+            except BaseException:
+                # the rest of the chunk is abandoned: a writer blocked on a full pipe must not keep the process alive
+                self.p.kill()
+                raise
             th.join()
             self.calls += len(chunk)
         return out
